@@ -88,12 +88,27 @@ class Conn:
         w = self.world
         if self.wrapped_by is not None:
             w.violations.append(("io-on-unwrapped-socket", self.id))
-        self._api("sendall", bytes(data))
+        data = bytes(data)
+        # a send fault may strike after part (or all) of the data reached the peer: plan value ("after", nbytes, exc)
+        partial = w.partial_send_for(self)
+        if partial is not None:
+            nbytes, exc = partial
+            w.ledger.append(("sendall", self.id, (data,), w.tag))
+            w.api_count["sendall"] = w.api_count.get("sendall", 0) + 1
+            if not (self.closed or not self.connected):
+                head = data if nbytes < 0 else data[:nbytes]
+                w.io_timeouts.append((self.id, "sendall", self.timeout_in_force))
+                if head:
+                    self.sent.append((w.tag, head))
+                    w.on_send(self, head)
+            w.ledger.append(("fault", self.id, ("sendall", type(exc).__name__), w.tag))
+            raise exc
+        self._api("sendall", data)
         if self.closed or not self.connected:
             raise OSError(errno.EBADF, "send on closed/unconnected socket")
         w.io_timeouts.append((self.id, "sendall", self.timeout_in_force))
-        self.sent.append((w.tag, bytes(data)))
-        w.on_send(self, bytes(data))
+        self.sent.append((w.tag, data))
+        w.on_send(self, data)
 
     def recv(self, n):
         w = self.world
@@ -183,6 +198,11 @@ class World:
         if f is None:
             f = self.plan.pop((name, "conn%d" % conn.id if conn else None, k), None)
         return f
+
+    def partial_send_for(self, conn):
+        """plan entries ("sendall-after", k) -> (nbytes, exc): the k-th sendall delivers nbytes (-1 = all) and then raises"""
+        k = self.api_count.get("sendall", 0) - self.plan_base.get("sendall", 0)
+        return self.plan.pop(("sendall-after", k), None)
 
     def on_connect(self, conn):
         if self.connect_hook:
